@@ -388,6 +388,23 @@ func c20BodyFailure(c *an.Ctx) {
 			// order: error variables before Eval
 			w3 := an.FindPath(an.PathQuery{Fn: fn, StartBlock: start, Stop: func(x ssa.Instruction) bool { return an.IsCallTo(x, gen) }, Target: func(x ssa.Instruction) bool { return an.IsCallTo(x, evalFn) }})
 			c.Check(w3 == nil, "R4", key+": variables set before the phase runs", in.Pos(), "generate*BodyError precedes Eval", "the body phase can run before the error variables are set")
+			// request side: once the failure is recorded in the error variables and the phase was evaluated, the outcome
+			// is the interruption (if a rule reacted to REQBODY_ERROR), not an API error: connectors test the error first
+			// and abandon the request without a status, so a deny on REQBODY_ERROR would answer 200
+			if strings.HasSuffix(s.fn, "ProcessRequestBody") {
+				bad := ""
+				an.Instrs(fn, func(x ssa.Instruction) {
+					r, ok := x.(*ssa.Return)
+					if !ok || len(r.Results) != 2 || !(r.Block() == start || start.Dominates(r.Block())) {
+						return
+					}
+					if cst, isC := r.Results[1].(*ssa.Const); !isC || cst.Value != nil {
+						bad = tempName.ReplaceAllString(an.Expr(r.Results[1]), "")
+					}
+				})
+				c.Check(bad == "", "R4", key+" is reported through the error variables, not as an API error", in.Pos(), "failure paths return (interruption, nil)",
+					"after recording the failure and evaluating the phase, ProcessRequestBody also returns the error "+bad+": the http middleware looks at the error before the interruption and gives up without writing a status, so a request denied by a rule on REQBODY_ERROR is answered with an empty 200")
+			}
 		})
 		c.MinCount("R4", "fallible body-processor calls in "+shortFn(s.fn), n, 2)
 		// generate*Error sets "1"
@@ -475,4 +492,70 @@ func c20ExactTolerance(c *an.Ctx) {
 		})
 	}
 	c.MinCount("R3", "errors recognised by exact message", nExact, 1)
+	// an error recorded for the caller survives the iteration that produced it: inside a callback or loop body,
+	// an error result stored into a variable of the enclosing function is examined right there (and the iteration
+	// stopped), otherwise the next element's nil overwrites it and the failure is lost
+	nCap := 0
+	for _, fn := range c.P.ModFuncs {
+		if fn.Parent() == nil || len(fn.FreeVars) == 0 {
+			continue
+		}
+		if rp := relPkg(fn); rp != "internal/bodyprocessors" && rp != "internal/corazawaf" {
+			continue
+		}
+		an.Instrs(fn, func(in ssa.Instruction) {
+			st, ok := in.(*ssa.Store)
+			if !ok || st.Val.Type().String() != "error" {
+				return
+			}
+			if _, isFV := st.Addr.(*ssa.FreeVar); !isFV {
+				return
+			}
+			if _, isC := st.Val.(*ssa.Const); isC {
+				return
+			}
+			nCap++
+			tested := false
+			for _, r := range *st.Val.Referrers() {
+				if b, ok := r.(*ssa.BinOp); ok && (b.Op == token.NEQ || b.Op == token.EQL) {
+					tested = true
+				}
+			}
+			// or the variable is read back and tested after the store (same block or dominated by it)
+			for _, r := range *st.Addr.Referrers() {
+				ld, ok := r.(*ssa.UnOp)
+				if !ok || ld.Op != token.MUL {
+					continue
+				}
+				after := ld.Block() != st.Block() && st.Block().Dominates(ld.Block())
+				if ld.Block() == st.Block() {
+					for _, x := range st.Block().Instrs {
+						if x == ssa.Instruction(st) {
+							after = true
+						}
+						if x == ssa.Instruction(ld) {
+							break
+						}
+					}
+					// after is true only if the store came first
+					pos := map[ssa.Instruction]int{}
+					for i, x := range st.Block().Instrs {
+						pos[x] = i
+					}
+					after = pos[ssa.Instruction(st)] < pos[ssa.Instruction(ld)]
+				}
+				if !after {
+					continue
+				}
+				for _, r2 := range *ld.Referrers() {
+					if b, ok := r2.(*ssa.BinOp); ok && (b.Op == token.NEQ || b.Op == token.EQL) {
+						tested = true
+					}
+				}
+			}
+			c.Check(tested, "R3", "error stored for the enclosing function is examined where it arises, in "+an.RelName(fn), in.Pos(), "the stored error is compared with nil in the callback",
+				"a callback stores an error into a variable of the enclosing function and carries on without looking at it: the next call of the callback overwrites it (with nil when that element is fine), so the failure — a JSON value nested too deeply, for instance — is never reported and the body counts as inspected")
+		})
+	}
+	c.MinCount("R3", "errors handed from a callback to its enclosing function", nCap, 1)
 }
